@@ -448,13 +448,15 @@ def blankIterate (garbageV : Vec α) (garbageS : α) : Iterate α :=
     gamma := garbageS, L := garbageS, pTp := garbageS, gradPsiTp := garbageS, hxhat := garbageS,
     haveGradHat := false }
 
-def stats0 (garbageS : α) : Stats α :=
-  { eps := garbageS, sumTau := 0, finalGamma := 0, finalPsi := 0, finalH := 0, finalFbe := 0 }
+/-- `Stats s;` — the default member initialisers of `PANOCStats` (`ε = inf`, everything else 0);
+    `infS` is the carrier's `+∞` (the replay driver passes `1.0/0.0`). -/
+def stats0 (infS : α) : Stats α :=
+  { eps := infS, sumTau := 0, finalGamma := 0, finalPsi := 0, finalH := 0, finalFbe := 0 }
 
 /-- Everything before the main loop: Lipschitz estimate, first proximal-gradient step, initial
     quadratic-upper-bound backtracking.  `Sum.inl ticks` = early `NotFinite` return. -/
 def initState (P : Problem α) (d0 : D) (pr : Params α) (stop : Nat → Bool) (x0 : Vec α)
-    (garbageV : Vec α) (garbageS : α) : Nat ⊕ St α D :=
+    (garbageV : Vec α) (garbageS infS : α) : Nat ⊕ St α D :=
   let blank := blankIterate garbageV garbageS
   let curr := { blank with x := x0 }
   -- Estimate Lipschitz constant
@@ -471,15 +473,17 @@ def initState (P : Problem α) (d0 : D) (pr : Params α) (stop : Nat → Bool) (
   -- First proximal gradient step, then the quadratic upper bound loop
   let r := initQub P pr stop pr.lsFuel (evalPsiHat P pr (evalProxGradStep P curr)) (cnt.2.2 + 2) 0
   .inr { curr := r.1, next := cnt.2.1, q := garbageV, d := d0, tick := r.2.1,
-         stats := { stats0 garbageS with stepsizeBacktracks := r.2.2.1 }, k := 0, noProgress := 0,
+         stats := { stats0 infS with stepsizeBacktracks := r.2.2.1 }, k := 0, noProgress := 0,
          cbs := [], fuelOut := r.2.2.2 }
 
-/-- `PANOCSolver::operator()`. `garbage*` is the arbitrary content of never-written storage. -/
+/-- `PANOCSolver::operator()`. `garbage*` is the arbitrary content of never-written storage
+    (`garbageS`: the `NaN` the `Iterate` scalars are initialised with), `infS` the `+∞` the
+    statistics' `ε` is initialised with — it is what the early `NotFinite` return reports. -/
 def run (P : Problem α) (dir : Direction D α) (d0 : D) (pr : Params α) (stop : Nat → Bool)
-    (oot : Bool) (x0 y Sig errz0 : Vec α) (garbageV : Vec α) (garbageS : α) : Result α D :=
-  match initState P d0 pr stop x0 garbageV garbageS with
+    (oot : Bool) (x0 y Sig errz0 : Vec α) (garbageV : Vec α) (garbageS infS : α) : Result α D :=
+  match initState P d0 pr stop x0 garbageV garbageS infS with
   | .inl ticks =>
-    { stats := { stats0 garbageS with status := .NotFinite }, dfinal := d0, x := x0, y := y,
+    { stats := { stats0 infS with status := .NotFinite }, dfinal := d0, x := x0, y := y,
       errz := errz0, wrote := false, callbacks := [], ticks := ticks, final := none }
   | .inr s => mainLoop P dir pr stop oot x0 y Sig errz0 (pr.maxIter + 2) s
 
